@@ -157,6 +157,14 @@ def _find_search_optimizations(filters):
     prohibited_ids = set()
 
     for filter_ in filters:
+        # A shortcut is only derived from a value of the shape its operator is
+        # meant for: a string for "=" and "!=", a collection of strings for
+        # "in".  (A collection is never equal to a type or ID, and "in" a
+        # string is a substring test.)  All filters are evaluated on the
+        # objects found anyway.
+        if isinstance(filter_.value, str) == (filter_.op == "in"):
+            continue
+
         if filter_.property == "type":
             if filter_.op in ("=", "in"):
                 allowed_types = _update_allow(allowed_types, filter_.value)
